@@ -141,7 +141,7 @@ def ob_field_read_type(r, tier, seed):
                 open(os.path.join(d, 'main.gom'), 'w').write(src)
                 out = subprocess.run([build.compiler_bin(), 'run', '--dump-lift', os.path.join(d, 'main.gom')], capture_output=True, text=True, timeout=60)
             finally: shutil.rmtree(d, ignore_errors=True)
-            txt = out.stdout; ok_ = 'apply' not in txt.split('fn main')[-1] if 'fn main' in txt else False
+            txt = out.stdout; main_body = txt.split('fn main')[-1].split('\nfn ')[0] if 'fn main' in txt else ''; ok_ = bool(main_body) and 'apply' not in main_body
             r.findings.append(Finding('field-read-keeps-source-type', 'reading field f of H (lifted field type %s) is given the type %s' % (want, got), {'kind': k}, ok_, 'goml `%s`: the lifted main %s the closure through its apply function' % (src.replace('\n', ' | '), 'does not call' if ok_ else 'calls')))
         elif len(r.samples) < 3: r.samples.append({'field': k, 'type': list(got)})
 
